@@ -1182,11 +1182,14 @@ class CodeBuilder:
                 ftype = get_args(ftype)[0]
             else:
                 break
+        # a type variable stands for what it is bound to in this specialisation
+        real_type = self.get_real_type(fname, ftype)
         return (
             ftype in (typing.Any, type(None), None)
-            or is_type_var_any(self.get_real_type(fname, ftype))
+            or real_type in (typing.Any, type(None), None)
+            or is_type_var_any(real_type)
             or is_optional(ftype, self.get_field_resolved_type_params(fname))
-            or (is_union(ftype) and NoneType in get_args(ftype))
+            or (is_union(real_type) and NoneType in get_args(real_type))
             or self.get_field_default(fname) is None
         )
 
